@@ -896,3 +896,76 @@ Proof.
           apply (S_calla "x9" lp_s (EId "f") [sx_arg0]); [reflexivity|repeat constructor|apply S_hole]|].
   vm_compute. repeat split.
 Qed.
+
+(* ---- SEVERAL occurrences in sequential position ([sctxs]: the reflexive-transitive closure of [sctx];
+   C[x, x] -> C[s, x] -> C[s, s], one occurrence per step, the renamings growing along the chain) ---- *)
+Theorem C02_sctx_is_sctxs : forall x s a b, sctx x s a b -> sctxs x s a b.
+Proof. exact sctx_sctxs. Qed.
+Check C02_sctx_is_sctxs : forall x s a b, sctx x s a b -> sctxs x s a b.
+Print Assumptions C02_sctx_is_sctxs.
+
+Theorem C02_let_abstraction_seq_multi_partial : forall release d x s st st1 fr v eA eB,
+  frames_lt (length st) fr = true ->
+  evalD release binop_impl builtin_full d (st, fr) (EId x) = (Ok v, (st, fr)) ->
+  evalD release binop_impl builtin_full d (st, fr) s = (Ok v, (st1, fr)) ->
+  cell_free v = true ->
+  sctxs x s eA eB ->
+  osame (fst (evalD release binop_impl builtin_full d (st, fr) eA)) (fst (evalD release binop_impl builtin_full d (st, fr) eB)).
+Proof. exact let_abstraction_seq_multi_full. Qed.
+Check C02_let_abstraction_seq_multi_partial : forall release d x s st st1 fr v eA eB,
+  frames_lt (length st) fr = true ->
+  evalD release binop_impl builtin_full d (st, fr) (EId x) = (Ok v, (st, fr)) ->
+  evalD release binop_impl builtin_full d (st, fr) s = (Ok v, (st1, fr)) ->
+  cell_free v = true ->
+  sctxs x s eA eB ->
+  osame (fst (evalD release binop_impl builtin_full d (st, fr) eA)) (fst (evalD release binop_impl builtin_full d (st, fr) eB)).
+Print Assumptions C02_let_abstraction_seq_multi_partial.
+
+Theorem C02_let_program_multi : forall release d x s C_x C_s st fr v c1 rA cA rB cB,
+  frames_lt (length st) fr = true -> no_assign s = true -> no_assign C_s = true ->
+  sctxs x s C_x C_s ->
+  nocc x s = true -> nocc x C_s = true -> frames_nm x fr = true ->
+  evalD release binop_impl builtin_full d (st, fr) (EAssign x s) = (Ok v, c1) ->
+  cell_free v = true ->
+  evalD release binop_impl builtin_full d c1 C_x = (rA, cA) ->
+  evalD release binop_impl builtin_full d (st, fr) C_s = (rB, cB) ->
+  osame rA rB.
+Proof. exact let_program_multi_full. Qed.
+Check C02_let_program_multi : forall release d x s C_x C_s st fr v c1 rA cA rB cB,
+  frames_lt (length st) fr = true -> no_assign s = true -> no_assign C_s = true ->
+  sctxs x s C_x C_s ->
+  nocc x s = true -> nocc x C_s = true -> frames_nm x fr = true ->
+  evalD release binop_impl builtin_full d (st, fr) (EAssign x s) = (Ok v, c1) ->
+  cell_free v = true ->
+  evalD release binop_impl builtin_full d c1 C_x = (rA, cA) ->
+  evalD release binop_impl builtin_full d (st, fr) C_s = (rB, cB) ->
+  osame rA rB.
+Print Assumptions C02_let_program_multi.
+
+(* two occurrences, and an s that ALLOCATES on every evaluation: s = map(t, z => z + 1) (value [4, 5], cell-free;
+   one cell per evaluation);  C = [□, □, (q => q)].  After the prefix (2 cells) program A `x9 = s; [x9, x9, q => q]`
+   allocates cell 2 in the assignment and the closure is cell 3; program B `[s, s, q => q]` allocates cells 2 and 3
+   for the two evaluations of s and the closure is cell 4: the results differ as terms and are osame *)
+Definition mp_s : expr :=
+  ECall (EBuiltin B_map) [EId "t"; ELam [AReq "z"] (EBin Add (EId "z") (ENum (num_of_Z 1)))].
+Definition mp_C (h1 h2 : expr) : expr :=
+  EList [Cm [] h1 None; Cm [] h2 None; Cm [] (ELam [AReq "q"] (EId "q")) None].
+Example C02_let_program_multi_example :
+  let c := s_cfg (fst (run (evalD true binop_impl builtin_full 8) (init_session []) lp_prog)) in
+  let a1 := evalD true binop_impl builtin_full 8 c (EAssign "x9" mp_s) in
+  let rA := evalD true binop_impl builtin_full 8 (snd a1) (mp_C (EId "x9") (EId "x9")) in
+  let rB := evalD true binop_impl builtin_full 8 c (mp_C mp_s mp_s) in
+  sctxs "x9" mp_s (mp_C (EId "x9") (EId "x9")) (mp_C mp_s mp_s) /\
+  no_assign mp_s = true /\ no_assign (mp_C mp_s mp_s) = true /\ nocc "x9" mp_s = true /\ nocc "x9" (mp_C mp_s mp_s) = true /\
+  frames_nm "x9" (snd c) = true /\ length (fst c) = 2 /\
+  fst a1 = Ok (VList [VNum (num_of_Z 4); VNum (num_of_Z 5)]) /\
+  length (fst (snd rA)) = 4 /\ length (fst (snd rB)) = 5 /\
+  is_ok (fst rA) = true /\ fst rA <> fst rB /\ osame (fst rA) (fst rB).
+Proof.
+  split.
+  { unfold mp_C. eapply SS_step.
+    - apply (S_list "x9" mp_s [] [] None (EId "x9") mp_s); [constructor|apply S_hole].
+    - eapply SS_step; [|apply SS_refl].
+      apply (S_list "x9" mp_s [Cm [] mp_s None] [] None (EId "x9") mp_s); [repeat constructor|apply S_hole]. }
+  vm_compute. repeat split. intros H; discriminate H.
+Qed.
